@@ -9,10 +9,14 @@ State: the instrument flag (`QMI_Instrument._is_open`), the set of open device l
 device, the trace of executed statements (for the line-trace correspondence with the real code) and the number
 of fault points passed so far.
 
-Fault plan: "the k-th potentially-raising step (counted from 0, link opening included) raises kind κ";
-`none` = no fault.  Potentially-raising steps are `tOpen` and `io` (every statement the translator cannot
-show to be pure).  `checkClosed`/`checkOpen`/`superOpen`/`superClose`/`tOpen`/`tClose` raise
-`invalidOp` in the wrong state exactly like `QMI_Instrument._check_is_*` and `QMI_Transport.open/close`.
+Fault plan: a function from the index of a potentially-raising step (counted from 0 within one call, link opening
+included) to the exception kind it raises, if any — so a plan may contain any number of faults; `noFault` is the
+empty plan, `single k κ` the plan of the property statement ("the k-th device I/O raises κ").  Potentially-raising
+steps are `tOpen`, `io` (every statement the translator cannot show to be pure) and `tClose` (a transport's
+`close()` clears its open flag first — `QMI_Transport.close` — and may then fail while releasing the OS resource:
+the link counts as released, the exception propagates).  `checkClosed`/`checkOpen`/`superOpen`/`superClose`/
+`tOpen`/`tClose` raise `invalidOp` in the wrong state exactly like `QMI_Instrument._check_is_*` and
+`QMI_Transport.open/close`.
 
 Evaluation is by `Nat` fuel (one unit per list cell and nesting level) because `Stmt` is a nested inductive:
 structural recursion through it would be compiled by well-founded recursion and not reduce under `decide`.
@@ -73,18 +77,21 @@ inductive Res
   | outOfFuel
   deriving DecidableEq, Repr
 
-/-- fault plan: `some (k, κ)` = the k-th fault point raises κ -/
-abbrev Plan := Option (Nat × Kind)
+/-- fault plan: `P k = some κ` = the k-th fault point of the call raises κ (any number of faults) -/
+abbrev Plan := Nat → Option Kind
+
+/-- no fault at all -/
+def noFault : Plan := fun _ => none
+
+/-- exactly one fault: the k-th fault point raises κ -/
+def single (k : Nat) (κ : Kind) : Plan := fun c => if c = k then some κ else none
 
 def init : St := ⟨false, [], [], [], 0⟩
 
 def linkOpen (s : St) (t : Nat) : Bool := s.links.contains t
 
 /-- does the plan fire at the fault point reached in state `s`? -/
-def fault (P : Plan) (s : St) : Option Kind :=
-  match P with
-  | some (k, κ) => if s.cnt = k then some κ else none
-  | none => none
+def fault (P : Plan) (s : St) : Option Kind := P s.cnt
 
 /-- device I/O is only possible through an open link (`QMI_Transport._check_is_open`) -/
 def logIO (id : Nat) (s : St) : List Nat := if s.links.isEmpty then s.ioLog else id :: s.ioLog
@@ -103,7 +110,10 @@ def stepAtom (P : Plan) (id : Nat) (a : Atom) (s0 : St) : St × Res :=
         | some κ => ({ s with cnt := s.cnt + 1 }, .raised κ)
         | none => ({ s with cnt := s.cnt + 1, links := t :: s.links, ioLog := id :: s.ioLog }, .ok)
   | .tClose t =>
-      if s.links.contains t then ({ s with links := s.links.filter (· != t), ioLog := id :: s.ioLog }, .ok)
+      if s.links.contains t then
+        match fault P s with
+        | some κ => ({ s with cnt := s.cnt + 1, links := s.links.filter (· != t), ioLog := id :: s.ioLog }, .raised κ)
+        | none => ({ s with cnt := s.cnt + 1, links := s.links.filter (· != t), ioLog := id :: s.ioLog }, .ok)
       else (s, .raised .invalidOp)
   | .io =>
       match fault P s with
@@ -157,7 +167,7 @@ structure Driver where
 def runOpen (d : Driver) (P : Plan) : St × Res := exec P fuel0 d.openP init
 
 /-- number of fault points passed by the fault-free `open()` -/
-def freeCount (d : Driver) : Nat := (runOpen d none).1.cnt
+def freeCount (d : Driver) : Nat := (runOpen d noFault).1.cnt
 
 /-- is_open() true exactly when the driver holds (all of) its device link(s) -/
 def consistentB (n : Nat) (s : St) : Bool :=
@@ -173,13 +183,13 @@ def rowOK (d : Driver) (P : Plan) : Bool :=
 
 /-- the finite table `∀ plan` reduces to: no fault, and every fault point of the fault-free run × every kind -/
 def checkAll (d : Driver) : Bool :=
-  rowOK d none &&
-  (List.range (freeCount d)).all fun k => allKinds.all fun κ => rowOK d (some (k, κ))
+  rowOK d noFault &&
+  (List.range (freeCount d)).all fun k => allKinds.all fun κ => rowOK d (single k κ)
 
 /-- the same table with a finite list of excused plans -/
 def checkAllExcept (d : Driver) (bad : List (Nat × Kind)) : Bool :=
-  rowOK d none &&
-  (List.range (freeCount d)).all fun k => allKinds.all fun κ => bad.contains (k, κ) || rowOK d (some (k, κ))
+  rowOK d noFault &&
+  (List.range (freeCount d)).all fun k => allKinds.all fun κ => bad.contains (k, κ) || rowOK d (single k κ)
 
 /-- same flag and same open links (what the future behaviour depends on) -/
 def sameCore (a b : St) : Bool :=
@@ -189,12 +199,12 @@ def sameCore (a b : St) : Bool :=
     open works and opens every link exactly once; open on open is refused and changes nothing; close works and
     releases every link; close on closed is refused; a second open/close round behaves like the first. -/
 def histOK (d : Driver) : Bool :=
-  let o1 := exec none fuel0 d.openP init
-  let o2 := exec none fuel0 d.openP o1.1
-  let c1 := exec none fuel0 d.closeP o1.1
-  let c2 := exec none fuel0 d.closeP c1.1
-  let o3 := exec none fuel0 d.openP c1.1
-  let c0 := exec none fuel0 d.closeP init
+  let o1 := exec noFault fuel0 d.openP init
+  let o2 := exec noFault fuel0 d.openP o1.1
+  let c1 := exec noFault fuel0 d.closeP o1.1
+  let c2 := exec noFault fuel0 d.closeP c1.1
+  let o3 := exec noFault fuel0 d.openP c1.1
+  let c0 := exec noFault fuel0 d.closeP init
   o1.2 == .ok && fullyOpenB d.nlinks o1.1 && o1.1.links.length == d.nlinks &&
   o2.2 == .raised .invalidOp && sameCore o2.1 o1.1 && o2.1.ioLog == o1.1.ioLog &&
   c1.2 == .ok && fullyClosedB c1.1 &&
@@ -207,12 +217,12 @@ def histOK (d : Driver) : Bool :=
 def recoverRow (d : Driver) (P : Plan) : Bool :=
   let r := runOpen d P
   if r.1.instrOpen then
-    (let c := exec none fuel0 d.closeP r.1; !consistentB d.nlinks r.1 || (c.2 == .ok && fullyClosedB c.1))
+    (let c := exec noFault fuel0 d.closeP r.1; !consistentB d.nlinks r.1 || (c.2 == .ok && fullyClosedB c.1))
   else
-    (let o := exec none fuel0 d.openP r.1; !consistentB d.nlinks r.1 || (o.2 == .ok && fullyOpenB d.nlinks o.1))
+    (let o := exec noFault fuel0 d.openP r.1; !consistentB d.nlinks r.1 || (o.2 == .ok && fullyOpenB d.nlinks o.1))
 
 def recoverAll (d : Driver) : Bool :=
-  recoverRow d none &&
-  (List.range (freeCount d)).all fun k => allKinds.all fun κ => recoverRow d (some (k, κ))
+  recoverRow d noFault &&
+  (List.range (freeCount d)).all fun k => allKinds.all fun κ => recoverRow d (single k κ)
 
 end QmiModel.OpenProg
